@@ -301,7 +301,12 @@ def run(ctx):
     # R18.6: the BER member loop gives the open type getter no more than the enclosing value has left (rule R05.7)
     from . import c05
     r6 = c05.r05_7(ctx.prog("S"), rid="R18.6", only="OPEN_TYPE", floor=1)
-    return run_config(ctx.prog("S"), "default") + [r18_2(ctx.prog("K")), r18_3(ctx.prog("S")), r4, r5, r6]
+    # R18.7: the generator walks the object table's rows and columns against their own counts (rule R10.10 over the code
+    # that builds and emits information object tables and type selectors)
+    from . import c10
+    r7 = c10.r10_10(ctx.prog("K"), load_tables("c10"), rid="R18.7", floor=8,
+                    only=lambda f: "ioc" in f.name.lower() or "type_selector" in f.name or "_ioc" in f.relfile)
+    return run_config(ctx.prog("S"), "default") + [r18_2(ctx.prog("K")), r18_3(ctx.prog("S")), r4, r5, r6, r7]
 
 
 def thorough(ctx):
